@@ -96,7 +96,10 @@ def genericTys (hasU hasN hasLt : Bool) : List Ty :=
 /-- types that look generic but are not (`::T`, a path merely containing a segment named like a parameter) -/
 def trickyTys : List Ty :=
   [.path true [.mk "T" []], .path false [.mk "m" [], .mk "T" []], .macro ["mac", "!", "(", "T", ")"],
-   .path false [.mk "Vec" [.ty (.path true [.mk "T" []])]], .never, .ref none false (Ty.simple "str")]
+   .path false [.mk "Vec" [.ty (.path true [.mk "T" []])]], .never, .ref none false (Ty.simple "str"),
+   -- possibly unsized (matters for a last field)
+   .slice (Ty.simple "u8"), Ty.simple "str", .dynT false [.mk "Tr2" [.ty (Ty.simple "u8")]], .path false [.mk "m" [], .mk "str" []],
+   .path true [.mk "str" []]]
 
 def foreignAttrPool : List Toks :=
   [["doc", "=", "\" text\""], ["repr", "(", "C", ")"], ["allow", "(", "dead_code", ")"],
@@ -392,7 +395,9 @@ def genGenerics (cfg : GCfg) : Gen (Generics × GCtx) := do
     (1, [.ty [] Ty.selfTy [.trait false [] (Ty.simple "W2")]]),
     (1, [.ty [] (Ty.app "Vec" [Ty.selfTy]) [.trait false [] (.path false [.mk "W3" [.ty Ty.selfTy]])],
          .ty [] tyT [.trait false [] (Ty.simple "W1")]]),
-    (1, [.ty ["'x"] (.ref (some "'x") false tyT) [.trait false [] (Ty.simple "W4")]])]
+    (1, [.ty ["'x"] (.ref (some "'x") false tyT) [.trait false [] (Ty.simple "W4")]]),
+    (1, [.ty [] tyT [.trait true [] (Ty.simple "Sized")]]),
+    (1, [.ty [] tyT [.trait false [] (Ty.simple "W1"), .trait true [] (.path true [.mk "core" [], .mk "marker" [], .mk "Sized" []])]])]
   pure ({ params := ps, wheres := wh }, { hasT := true, hasU, hasN, hasLt })
 
 def genDeriveItems (cfg : GCfg) (traits : List String) (marker : Nat) : Gen (List DeriveItem) :=
